@@ -158,7 +158,7 @@ PROPS = {
                         "serde_json as the view of the identities"],
     },
     "C01": {
-        "translators": ["t2a", "t2b", "t2c"],
+        "translators": ["t2a", "t2b", "t2c", "t6"],
         "count": {"quick": 150, "thorough": 1500},
         "rule": "grammar-directed record lists (0..3 MODEL blocks, 1..4 chain runs with returning and blank chain ids and TER, negative / inserted / "
                 "wrapping residue numbers, lower-case names, insertion codes and alternate locations, none / partial / full alternate locations, hetero "
